@@ -133,7 +133,15 @@ def r3(run, db):
             run.check(len(brs) == 1 and brs[0]["break_edge"], "clash-propagates:%s" % f.id, "%s propagates a registration clash with `?`" % f.id, "%s does not propagate the clash" % f.id, c.where())
             if brs and brs[0]["break_edge"]:
                 reach = edge_path_sites(f, [brs[0]["break_edge"]])
-                bad = [x for x in f.calls() if x.site in reach and x.matches(r"registry::unregister$|register_pid$|unregister_pid$")]
+                RX = r"registry::unregister$|register_pid$|unregister_pid$"
+                bad = [x for x in f.calls() if x.site in reach and x.matches(RX)]
+                # ... nor through a workspace function that does (a rejected cell `retired` with set_status(Stopped) runs the exit
+                # cleanup, which unregisters *by name* -- the name of the live holder)
+                for x in f.calls():
+                    if x.site in reach and x not in bad:
+                        tgt = [n for n in (x.resolved, x.callee) if n and n in db.fns and db.fns[n].crate == "ractor"]
+                        if tgt and any(y.matches(r"registry::unregister$|unregister_pid$") for y in db.external_calls_reachable(tgt[:1])):
+                            bad.append(x)
                 run.check(not bad, "clash-no-side-effect:%s" % f.id, "the clash edge reaches neither unregister nor the pid registry (the holder's entries are untouched)",
                           "on a name clash %s still calls %s" % (f.id, [x.name for x in bad]), c.where())
                 # and constructs no port set / returns Err
